@@ -141,6 +141,50 @@ func (h *harness) needle(text string) string {
 	return randCase(rng, w)
 }
 
+// crossNeedle: a string that spans a fold of the field: the end of the token before the fold, one space, the beginning
+// of the token after it ("" when the charset of the command cannot express it)
+func (h *harness) crossNeedle(f *hfield) string {
+	rng := h.rng
+	c := f.Cross[rng.Pick(len(f.Cross))]
+	l, r := []rune(c[0]), []rune(c[1])
+	if len(l) > 2 && rng.Chance(0.6) {
+		l = l[len(l)-rng.Range(2, len(l)):]
+	}
+	if len(r) > 2 && rng.Chance(0.6) {
+		r = r[:rng.Range(2, len(r))]
+	}
+	n := randCase(rng, string(l)+" "+string(r))
+	if _, ok := encodeFor(h.charset, n); !ok {
+		return ""
+	}
+	return n
+}
+
+// headerNeedle: a needle for a key that reads a header field. RFC 5322 unfolds by removing the CRLF; gluon trims every
+// physical line and joins them with one space. The two differ only in the white space at a fold, and only a needle that
+// spans a fold made of something else than CRLF SP can tell them apart: such needles are not used (the property does not
+// say which reading is meant); needles that span a CRLF SP fold are.
+func (h *harness) headerNeedle(v *view, f *hfield, text string) string {
+	for try := 0; try < 6; try++ {
+		n, cross := "", false
+		if f != nil && len(f.Cross) > 0 && h.rng.Chance(0.4) {
+			n, cross = h.crossNeedle(f), true
+		} else {
+			n = h.needle(text)
+		}
+		if n != "" && v.readingsAgree(n) {
+			if cross {
+				h.ctx.Res.Count("needle:spans-a-fold")
+			}
+			return n
+		}
+		if cross {
+			h.ctx.Res.Count("needle:spans-a-fold-but-readings-differ(not used)")
+		}
+	}
+	return "zulu"
+}
+
 func (h *harness) genSet(v *view, uidMode bool) []wrange {
 	rng := h.rng
 	cnt := len(v.Msgs)
@@ -252,20 +296,31 @@ func (h *harness) genLeaf(v *view) *key {
 				text = m.first(k.Kind)
 			}
 		}
-		k.Str = h.needle(text)
+		switch k.Kind {
+		case "BODY", "TEXT":
+			k.Str = h.needle(text)
+		default:
+			var f *hfield
+			if m != nil {
+				f = m.firstField(k.Kind)
+			}
+			k.Str = h.headerNeedle(v, f, text)
+		}
 	case x < 60:
 		k.Kind = "HEADER"
-		k.Fld = randCase(rng, []string{"x-tag", "x-custom-field", "comments", "keywords", "subject", "x-marker", "x-absent", "to", "date"}[rng.Pick(9)])
+		k.Fld = randCase(rng, []string{"x-tag", "x-custom-field", "comments", "keywords", "subject", "x-marker", "x-absent", "to", "date", "cc", "from", "bcc"}[rng.Pick(12)])
 		text := ""
+		var fld *hfield
 		if m != nil {
-			var vals []string
-			for _, hf := range m.Hdrs {
-				if strings.EqualFold(hf.Name, k.Fld) {
-					vals = append(vals, hf.Value)
+			var fs []*hfield
+			for i := range m.Hdrs {
+				if strings.EqualFold(m.Hdrs[i].Name, k.Fld) {
+					fs = append(fs, &m.Hdrs[i])
 				}
 			}
-			if len(vals) > 0 {
-				text = vals[rng.Pick(len(vals))] // any occurrence, not only the first
+			if len(fs) > 0 {
+				fld = fs[rng.Pick(len(fs))] // any occurrence, not only the first
+				text = fld.Value
 			}
 		}
 		if rng.Chance(0.2) {
@@ -274,7 +329,7 @@ func (h *harness) genLeaf(v *view) *key {
 				k.StrForm = 1
 			}
 		} else {
-			k.Str = h.needle(text)
+			k.Str = h.headerNeedle(v, fld, text)
 		}
 	case x < 76:
 		k.Kind = dateLeaves[rng.Pick(len(dateLeaves))]
@@ -839,7 +894,50 @@ func (h *harness) corpus(c *imapc.Client, v *view, epoch int) error {
 			}
 		}
 	}
+	// a string that spans a fold (CRLF SP) of the field, for every key that reads a header field, plain and negated
+	for _, kind := range []string{"FROM", "TO", "CC", "BCC", "SUBJECT", "HEADER"} {
+		w, fld := h.findCross(v, kind)
+		if w == "" {
+			continue
+		}
+		k := S(kind, w)
+		if kind == "HEADER" {
+			k = H(fld, w)
+		}
+		n++
+		for _, keys := range [][]*key{{k}, {N(k)}} {
+			if err := h.runCase(c, v, epoch, n%2 == 0, "", keys, true); err != nil {
+				return err
+			}
+		}
+	}
 	return nil
+}
+
+// findCross: a needle made of the two whole tokens around a fold of a field the key kind looks at, on which the two
+// readings of "unfolded" agree (i.e. the fold is CRLF SP); for HEADER also the field name.
+func (h *harness) findCross(v *view, kind string) (string, string) {
+	for _, m := range v.Msgs {
+		var fs []*hfield
+		if kind == "HEADER" {
+			for i := range m.Hdrs {
+				if n := strings.ToLower(m.Hdrs[i].Name); strings.HasPrefix(n, "x-") || n == "comments" || n == "keywords" || n == "cc" {
+					fs = append(fs, &m.Hdrs[i])
+				}
+			}
+		} else if f := m.firstField(kind); f != nil {
+			fs = append(fs, f)
+		}
+		for _, f := range fs {
+			for _, c := range f.Cross {
+				n := c[0] + " " + c[1]
+				if isASCII(n) && v.readingsAgree(n) && ciContains(f.Value, n) {
+					return n, f.Name
+				}
+			}
+		}
+	}
+	return "", ""
 }
 
 // findWide: a word with characters outside ASCII that occurs in the part of some message the key kind looks at and that
@@ -1088,6 +1186,11 @@ func runC15(ctx *common.Ctx) error {
 		}
 	}
 
+	// ---- a view that still holds messages deleted by the CONNECTOR (imap.MessageDeleted: the rows are marked deleted) ----
+	if err := h.connectorDeleted(a, idA, per, sizes["held"]); err != nil {
+		return err
+	}
+
 	// ---- a message whose header block does not parse (created by the connector): model correspondence only ----
 	if err := h.brokenHeaderBox(a); err != nil {
 		res.Notes = append(res.Notes, "broken-header scenario skipped: "+err.Error())
@@ -1119,6 +1222,103 @@ func runC15(ctx *common.Ctx) error {
 	}
 	res.ModelCases = len(lines)
 	return common.WriteCases(ctx.Out, "Run.RunC15", "case", lines, extra.String())
+}
+
+// connectorDeleted: the first session has a mailbox selected; the connector reports two of its messages as deleted (on the
+// server side / in another client). The session's updates are held, so it has not been told: its view still holds all
+// messages and SEARCH has to answer about all of them, whatever the keys read (snapshot, database row, literal).
+func (h *harness) connectorDeleted(a *imapc.Client, idA int64, per, n int) error {
+	res := h.ctx.Res
+	conn := h.s.Conn0()
+	pool, err := h.buildBox(a, "conndel", n, nil, nil)
+	if err != nil {
+		return err
+	}
+	r, err := a.Cmd("SELECT conndel")
+	if e := must(r, err, "select conndel"); e != nil {
+		return e
+	}
+	va := &view{Box: "conndel", Class: "holds-messages-deleted-by-the-connector"}
+	if err := refresh(a, va, pool); err != nil {
+		return err
+	}
+	if err := h.randomStores(a, va, 3); err != nil {
+		return err
+	}
+	if err := refresh(a, va, pool); err != nil {
+		return err
+	}
+	verifhook.SetHold(func(id int64) bool { return id == idA })
+	defer verifhook.SetHold(nil)
+	var gone []*message
+	for _, pos := range []int{2, len(va.Msgs)} {
+		m := va.Msgs[pos-1]
+		var rid imap.MessageID
+		for id, rm := range conn.Messages {
+			if strings.Contains(string(rm.Literal), "X-Marker: "+m.Tag+"\r\n") {
+				rid = id
+			}
+		}
+		if rid == "" {
+			return fmt.Errorf("connector-deleted scenario: remote id of %s not found", m.Tag)
+		}
+		if perr, acked := conn.Push(imap.NewMessagesDeleted(rid), 30*time.Second); !acked || perr != nil {
+			return fmt.Errorf("connector-deleted scenario: push: acked=%v err=%v", acked, perr)
+		}
+		gone = append(gone, m)
+	}
+	if verifhook.Held(idA) == 0 {
+		return fmt.Errorf("connector-deleted scenario: no update was held for the session")
+	}
+	res.Count("connector-deleted-messages-in-view")
+	ep := h.newEpoch(va) // the view is what it was
+	if err := h.corpus(a, va, ep); err != nil {
+		return err
+	}
+	// every kind of key that reads the database row or the literal, aimed at the deleted messages, plain / NOT / OR / UID
+	L := func(kind string) *key { return &key{Kind: kind, StrForm: 1, FldForm: 1} }
+	for i, m := range gone {
+		big1, zero := L("SMALLER"), L("LARGER")
+		big1.Num, zero.Num = bi(int64(m.Size+1)), bi(int64(m.Size-1))
+		on, since, before := L("ON"), L("SINCE"), L("BEFORE")
+		on.Date, since.Date, before.Date = m.IDate, m.IDate, shiftDate(m.IDate, 1)
+		text, body, hdr, subj := L("TEXT"), L("BODY"), L("HEADER"), L("SUBJECT")
+		text.Str, hdr.Fld, hdr.Str = m.Tag, "X-Marker", m.Tag
+		body.Str = strings.Fields(m.Body)[0]
+		subj.Str = "a"
+		for j, k := range []*key{big1, zero, on, since, before, text, body, hdr, subj} {
+			for _, keys := range [][]*key{{k}, {{Kind: "NOT", Sub: []*key{k}}}, {{Kind: "OR", Sub: []*key{L("SEEN"), k}}}} {
+				if err := h.runCase(a, va, ep, (i+j)%2 == 0, "", keys, true); err != nil {
+					return err
+				}
+			}
+		}
+	}
+	if err := h.randomCases(a, va, ep, per/2); err != nil {
+		return err
+	}
+	// release: the session learns about the deletions at its next command that may announce them
+	k := verifhook.Held(idA)
+	verifhook.SetHold(nil)
+	verifhook.Release(idA, k)
+	for i := 0; i < 2; i++ {
+		verifhook.WaitQuiet(idA, 30*time.Second)
+		r, err = a.Cmd("NOOP")
+		if e := must(r, err, "noop"); e != nil {
+			return e
+		}
+	}
+	for _, m := range gone {
+		delete(pool, m.Tag)
+	}
+	va2 := &view{Box: "conndel", Class: "after-connector-deletion-announced"}
+	if err := refresh(a, va2, pool); err != nil {
+		return err
+	}
+	if len(va2.Msgs) != len(va.Msgs)-len(gone) {
+		res.Notes = append(res.Notes, fmt.Sprintf("after release the session sees %d messages (expected %d)", len(va2.Msgs), len(va.Msgs)-len(gone)))
+	}
+	return h.randomCases(a, va2, h.newEpoch(va2), per/3)
 }
 
 func cloneMsgs(ms []*message) []*message {
@@ -1155,7 +1355,10 @@ func (h *harness) brokenHeaderBox(a *imapc.Client) error {
 	bad := &message{Tag: h.newTag(), Flags: map[string]bool{}, HdrBroken: true}
 	bad.Body = "alpha bravo\r\n"
 	bad.Lit = []byte("Date: Mon, 01 Jan 2024 10:00:00 +0000\r\nFrom: a@example.com\r\nBad Key: charlie\r\nX-Marker: " + bad.Tag + "\r\nSubject: delta\r\n\r\n" + bad.Body)
-	bad.Hdrs = []hfield{{"Date", "Mon, 01 Jan 2024 10:00:00 +0000"}, {"From", "a@example.com"}, {"X-Marker", bad.Tag}, {"Subject", "delta"}}
+	bad.Hdrs = []hfield{{Name: "Date", Value: "Mon, 01 Jan 2024 10:00:00 +0000"}, {Name: "From", Value: "a@example.com"}, {Name: "X-Marker", Value: bad.Tag}, {Name: "Subject", Value: "delta"}}
+	for i := range bad.Hdrs {
+		bad.Hdrs[i].ValueG = bad.Hdrs[i].Value
+	}
 	bad.Sent = &date{2024, 1, 1}
 	id := conn.NewMessageID()
 	when := time.Date(2024, 1, 5, 12, 0, 0, 0, time.UTC)
